@@ -100,6 +100,24 @@ Third round (C15 and C08 agents were told what the machinery evidently does and 
   transitions) and `project_x` (projection between fixed zones with offsets up to +-(2^31-1)). `m3` (unreachable!() for rules straddling
   the new year) was caught as it was.
 
+Fourth round (C15) and third round (C17, C19):
+
+* `seeded/C15-r4c15-m2/m3/m4` (reading `/etc/timezone` beside the injected reader; an `Arc<AtomicUsize>` hint inside `TimeZone`
+  written by `&self` lookups; probing a directory relative to `current_exe()`): caught at once by the system-call seam and the
+  zone-memory digest, both of which had been built in anticipation of exactly this class after round 3. `m1` (`find` consults the
+  crate's own clock function): missed - the clock hook is the simulator's own seam, so the shim sees nothing; added the rule that an
+  operation which is given its instant must not read the clock at all (the hook counts reads per call).
+* `seeded/C17-r3c17-m1` (16-bit counters): no query had more than a few results; added *ping-pong* zones (two types, hundreds to
+  140 000 transitions one second apart) in which one local time has up to 70 000 results. `m2` (earliest/latest as min/max, differing
+  only for ties) and `m3` (`find_n` validating through `UtcDateTime::new`, which refuses `i32::MAX-12-31T23:59:60`): added pairs of
+  transitions exactly at a leap record and one second later, and calendar corner dates (Dec 31 23:59:60, Feb 29, ...) in the first
+  and last representable years.
+* `seeded/C19-r3c19-m1/m3` (error enums implementing `Error` only with std; `From<TransitionRuleError> for Error` only with alloc):
+  tz-rs still builds alone everywhere and no value changes - only a *consumer* of the reduced configurations stops compiling. `featsim`
+  now contains `api.rs`, the configuration-independent API surface written as code; if tz-rs builds alone, the consumer builds with std,
+  and the same consumer does not build with `{}` or `{alloc}`, that is `C19.build consumer-<set>`. `m2` (`Display` honouring width, fill and
+  precision only with alloc): formatting now also goes through `{:>44}`, `{:<5}`, `{:*^50}`, `{:.3}` into the stack buffer.
+
 False alarms: an independent agent wrote eight behaviour-preserving changes (`/verif/benign/b1..b8`: rewritten binary searches, restructured
 TZif block parsing with checked sizes, a different `TzAsciiStr` representation, Hinnant's civil-from-days in `from_timespec`, `find_date_time`
 split into helpers, a local `Vec<String>` of candidate paths in `read_tz_file`, reworded error messages plus extra derives and `#[inline]`s,
